@@ -395,9 +395,6 @@ func runC11(t *testing.T, c Case) (res Result) {
 			}
 			return n
 		}
-		matches := func(m *c11model, fs, fg int64) bool {
-			return (fs < 0 || m.state == c11States[fs]) && (fg < 0 || m.grp == fg)
-		}
 		byC := map[int][]Op{}
 		for _, op := range c.Ops {
 			if op.C >= 0 {
@@ -444,39 +441,8 @@ func runC11(t *testing.T, c Case) (res Result) {
 						}
 						o.capHit = resp.GetCapReached()
 						if seq && o.err == nil {
-							// model: ordered walk of the chosen index, first n matching, budget = cap - current
-							var cand []string
-							for k, m := range model {
-								if !matches(m, op.A[4], op.A[5]) {
-									continue
-								}
-								if op.A[2] == 2 && m.exp == 0 {
-									continue
-								}
-								if op.A[6] == 1 && !(m.exp < o.t0.UnixNano()) {
-									continue
-								}
-								cand = append(cand, k)
-							}
-							want := int64(len(cand))
-							if op.A[1] > 0 && op.A[1] < want {
-								want = op.A[1]
-							}
-							if op.A[7] > 0 && op.A[7] < want {
-								want = op.A[7]
-							}
-							if op.A[8] > 0 {
-								b := op.A[8] - modelCount()
-								if b < 0 {
-									b = 0
-								}
-								if b < want {
-									want = b
-								}
-							}
-							if int64(len(o.got)) != want {
-								seqFail("ShiftMatching(%v) removed %d records, the model expects %d (matching %d, claimed now %d, cap %d)", op.A, len(o.got), want, len(cand), modelCount(), op.A[8])
-							}
+							// the model follows the reply (which records a selection takes is the engine's choice within
+							// HowMany / budget); the state and the matching count are compared after the operation
 							for _, g := range o.got {
 								delete(model, g.key)
 							}
@@ -499,37 +465,8 @@ func runC11(t *testing.T, c Case) (res Result) {
 						}
 						o.capHit = resp.GetCapReached()
 						if seq && o.err == nil {
-							var cand []string
-							for k, m := range model {
-								if m.exp != 0 && m.exp < o.t0.UnixNano() && matches(m, op.A[2], op.A[3]) {
-									cand = append(cand, k)
-								}
-							}
-							sort.Slice(cand, func(i, j int) bool { return model[cand[i]].exp < model[cand[j]].exp })
-							want := int64(len(cand))
-							if op.A[1] > 0 && op.A[1] < want {
-								want = op.A[1]
-							}
-							if op.A[4] > 0 {
-								b := op.A[4] - modelCount()
-								if b < 0 {
-									b = 0
-								}
-								if b < want {
-									want = b
-								}
-							}
-							var gotKeys []string
 							for _, g := range o.got {
-								if g.status == hydrapb.PatchResult_PATCHED {
-									gotKeys = append(gotKeys, g.key)
-								}
-							}
-							if fmt.Sprint(gotKeys) != fmt.Sprint(append([]string{}, cand[:want]...)) {
-								seqFail("PatchExpired(%v) patched %v, the model expects %v (expired+matching %v, claimed now %d, cap %d)", op.A, gotKeys, cand[:want], cand, modelCount(), op.A[4])
-							}
-							for _, k := range gotKeys {
-								if m := model[k]; m != nil {
+								if m := model[g.key]; m != nil && g.status == hydrapb.PatchResult_PATCHED {
 									m.state, m.exp = "claimed", o.t0.Add(lease).UnixNano()
 								}
 							}
@@ -660,6 +597,16 @@ func runC11(t *testing.T, c Case) (res Result) {
 								}
 							}
 							sort.Strings(ks)
+							nClaimed := int64(0)
+							for _, st := range got {
+								if st == "claimed" {
+									nClaimed++
+								}
+							}
+							if capMax > 0 && nClaimed > capMax && early == nil {
+								x := violation("cap_exceeded", "after %s(%v) %d records have state==claimed although every operation carried MaxMatching=%d", op.K, op.A, nClaimed, capMax)
+								early = &x
+							}
 							for _, k := range ks {
 								ms := "<absent>"
 								if model[k] != nil {
@@ -815,12 +762,12 @@ func runC11(t *testing.T, c Case) (res Result) {
 		return false
 	}
 	// orderClass names an index-order violation. The comparator of the engine's index sort reads the live
-	// records, so a write of the sort attribute (expiry slide, patch-claim, new record) that runs while an index
+	// records, so a write of the sort attribute (expiry slide, patch-claim, new record, delete - which zeroes it) that runs while an index
 	// walk's lazy build or re-sort is in progress leaves the index mis-sorted: that history is a recorded finding;
 	// a mis-ordered reply without such a write is not.
 	orderClass := func(o *c11op) string {
 		for _, w := range ops {
-			writes := (w.kind == "slide" && w.acked) || (w.kind == "add" && w.acked)
+			writes := (w.kind == "slide" && w.acked) || (w.kind == "add" && w.acked) || (w.kind == "del" && w.acked) // a delete zeroes the expiry of the removed object
 			if w.kind == "patchexp" {
 				for _, g := range w.got {
 					if g.status == hydrapb.PatchResult_PATCHED {
